@@ -220,13 +220,13 @@ class SemverVersion(Version):
         return self.value and self.value.build
 
     def next_major(self):
-        return self.value and SemverVersion(str(self.value.next_major()))
+        return self.value and self.__class__(str(self.value.next_major()))
 
     def next_minor(self):
-        return self.value and SemverVersion(str(self.value.next_minor()))
+        return self.value and self.__class__(str(self.value.next_minor()))
 
     def next_patch(self):
-        return self.value and SemverVersion(str(self.value.next_patch()))
+        return self.value and self.__class__(str(self.value.next_patch()))
 
 
 def is_even(s):
